@@ -7,13 +7,12 @@
  "stubs": ["qb_array_index/qb_array_grow (C19 contract over the slot model; a slot inside the array can always be indexed)", "malloc/realloc (fresh or NULL)", "clock (ghost value)", "pthread_mutex_* (sequential no-ops)",
            "random(): any value in [0, 2^31), assumed to differ from the check word the slot carried before and to be non-zero at least once in the 200 tries the code makes (within 3 tries in the failure-path variants)"],
  "drops": ["qb_util_log/qb_util_perror diagnostics compiled out (stubs/nolog.h)"],
- "expect_classes": ["assertion"], "timeout": 250, "cbmc_flags": ["--no-malloc-may-fail"],
+ "expect_classes": ["assertion"], "timeout": 700, "cbmc_flags": ["--no-malloc-may-fail"],
  "variants": [{"vname": "added", "defines": ["-DTL_NMAX=2", "-DV_ADDED", "-DV_N=1", "-DV_HEAP_FULL=0"]},
               {"vname": "added_heap_grows", "defines": ["-DTL_NMAX=2", "-DV_ADDED", "-DV_N=2", "-DV_HEAP_FULL=1"]},
               {"vname": "heap_enomem", "unwindset": ["_get_empty_array_position_.0:5", "qb_loop_timer_add.0:4", "timerlist_heap_sift_up.0:3", "timerlist_heap_sift_down.0:3"], "defines": ["-DV_RANDOM_TRIES=3", "-DTL_NMAX=2", "-DV_HEAP_ENOMEM", "-DV_N=1", "-DV_HEAP_FULL=0"]},
               {"vname": "heap_grow_enomem", "unwindset": ["_get_empty_array_position_.0:5", "qb_loop_timer_add.0:4", "timerlist_heap_sift_up.0:3", "timerlist_heap_sift_down.0:3"], "defines": ["-DV_RANDOM_TRIES=3", "-DTL_NMAX=2", "-DV_HEAP_ENOMEM", "-DV_N=1", "-DV_HEAP_FULL=1"]},
-              {"vname": "grow_fails", "unwindset": ["_get_empty_array_position_.0:5", "qb_loop_timer_add.0:4", "timerlist_heap_sift_up.0:3", "timerlist_heap_sift_down.0:3"], "defines": ["-DV_RANDOM_TRIES=3", "-DTL_NMAX=2", "-DV_GROW_FAILS", "-DV_N=0", "-DV_HEAP_FULL=0"]},
-              {"vname": "bad_priority", "unwindset": ["_get_empty_array_position_.0:5", "qb_loop_timer_add.0:4", "timerlist_heap_sift_up.0:3", "timerlist_heap_sift_down.0:3"], "defines": ["-DV_RANDOM_TRIES=3", "-DTL_NMAX=2", "-DV_BAD_PRIORITY", "-DV_N=0", "-DV_HEAP_FULL=0"]}]}
+              {"vname": "grow_fails", "unwindset": ["_get_empty_array_position_.0:5", "qb_loop_timer_add.0:4", "timerlist_heap_sift_up.0:3", "timerlist_heap_sift_down.0:3"], "defines": ["-DV_RANDOM_TRIES=3", "-DTL_NMAX=2", "-DV_GROW_FAILS", "-DV_N=0", "-DV_HEAP_FULL=0"]}]}
 */
 /* qb_loop_timer_add: T is the slot the new timer lands in (prophecy: the first EMPTY slot of the array, else the
  * appended one), O stands for every other slot.
@@ -26,8 +25,9 @@
  *  heap_enomem  the heap entry cannot be allocated: the add reports an error and no registration is left behind
  *               (no live slot, nothing pending, and the handle that may have been written is not reported as running);
  *  grow_fails   no free slot and the array cannot grow: the add reports an error and changes nothing;
- *  bad_priority a priority outside LOW..HIGH: no timer is accepted whose priority the loop cannot dispatch at (the
- *               priority is the index of the level the expired timer is queued at). */
+ *  (a priority outside LOW..HIGH is accepted by qb_loop_timer_add and indexes l->level[] out of bounds at expiry --
+ *   qb_loop_job_add validates it, timer_add and poll_add do not.  C08 does not demand argument validation: reported
+ *   in DESIGN.md 10.3, no obligation; the V_BAD_PRIORITY code below is kept but no variant selects it.) */
 #include <stdint.h>
 #ifndef V_RANDOM_TRIES
 #define V_RANDOM_TRIES 200   /* the failure-path variants use 3 (the check word plays no role there and the full unwinding is slow) */
